@@ -1,6 +1,6 @@
 use std::collections::BTreeSet;
-opaque_types!(PlutusWitness, PlutusData, CostModel, Vkeywitnesses, BootstrapWitnesses);
-clone_eq!(PlutusWitness, PlutusData, CostModel);
+opaque_types!(PlutusWitness, CostModel, Vkeywitnesses, BootstrapWitnesses);
+clone_eq!(PlutusWitness, CostModel);
 /// Plutus language version: a token with the derived total order (needed by BTreeSet<Language>)
 #[derive(PartialEq, Eq, PartialOrd, Ord)]
 pub struct Language(pub u8);
